@@ -121,8 +121,10 @@ type r2Pred struct {
 }
 
 type localDef struct {
-	expr ast.Expr
-	fr   *core.Frame
+	expr   ast.Expr
+	fr     *core.Frame
+	sec    int  // section instance (index of its acquire event) the definition was made in, -1 outside
+	shared bool // the defining expression reads lock-guarded or closure-shared state
 }
 
 // fbuilder turns condition expressions into formulas.
